@@ -10,6 +10,7 @@ prune-flagged operation at sequence number `N` has been ingested (inserted or al
 import P2.Model.LogStore
 import P2.Lemmas.LogStore
 import P2.Props.C03
+import P2.Extracted.C05
 
 namespace P2.C05
 open P2.Header P2.LogStore P2.LogStoreLemmas
@@ -98,6 +99,37 @@ theorem c05_pruned_prefix_stays_empty (hinj : ∀ h₁ h₂ : Header E, Hh h₁ 
   intro r hrow ha hl
   exact ((P2.C03.reachable_inv Hh lg pf hinj c tbl st hr).prunedOk a l n hp).2 r hrow
     ((inLog_iff a l r).2 ⟨ha, hl⟩)
+
+/-- **Tie to the source text**: the model's repaired `validatePrunableBacklink` is the Lean term
+    that `rs2lean` regenerates from the current body of `validate_prunable_backlink`
+    (p2panda-core/src/prune.rs) on every run — an edit of its decision logic (a dropped arm, `<=`
+    → `<`, the prune branch accepting unconditionally again) breaks this proof obligation before
+    any input is generated. -/
+theorem c05_validate_prunable_is_source {E : Type} (past : Option Row) (h : Header E) (prune : Bool) :
+    codeOf (validatePrunableBacklink past h prune) =
+      P2.Extracted.C05.validatePrunableT (past.map pastTriple) h.seq h.key prune
+        (fun p => codeOf (validateBacklink (rowOfTriple p) h)) := by
+  rw [show @P2.Extracted.C05.validatePrunableT = @validatePrunableSpec from rfl]
+  exact vpb_eq_spec past h prune
+
+/-- The surroundings the model transcribes, read from the current sources: `ingest_operation`
+    validates, begins, de-duplicates on `operation.hash`, binds `past_header` to
+    `get_latest_entry_tx(author, log_id)` **unconditionally** (not `None` for prune-flagged
+    operations) and hands it with the header and the flag to `validate_prunable_backlink` before
+    inserting; `prune_entries` deletes `seq_num < ?` of one `(verifying_key, log_id)`; the latest
+    entry is `ORDER BY seq_num DESC LIMIT 1`. -/
+theorem c05_extracted_sources :
+    P2.Extracted.C05.ingestCalls = ["validate_operation", "begin", "has_operation_tx", "rollback",
+      "get_latest_entry_tx", "validate_prunable_backlink", "insert_operation", "associate", "commit"] ∧
+    P2.Extracted.C05.pastHeaderExpr = "store .get_latest_entry_tx(&operation.header.verifying_key, log_id) .await .map_err(STORE)? .map(|operation| operation.header)" ∧
+    P2.Extracted.C05.vpbArgs = "past_header.as_ref(), &operation.header, prune_flag" ∧
+    P2.Extracted.C05.dedupKey = "&operation.hash" ∧
+    P2.Extracted.C05.dedupReturn = "Ok(false)" ∧
+    P2.Extracted.C05.insertArgs = "&id, operation, log_id" ∧
+    P2.Extracted.C05.pruneSql = "DELETE FROM operations_v1 WHERE verifying_key = ? AND log_id = ? AND seq_num < ?" ∧
+    P2.Extracted.C05.pruneBinds = ["author.to_string()", "log_id", "until.to_string()"] ∧
+    P2.Extracted.C05.latestSql = "SELECT hash, header, body FROM operations_v1 WHERE verifying_key = ? AND log_id = ? ORDER BY seq_num DESC LIMIT 1" := by
+  refine ⟨rfl, rfl, rfl, rfl, rfl, rfl, rfl, rfl, rfl⟩
 
 /-! ### The pinned tree: `validate_prunable_backlink` accepts any `seq > 0` with the prune flag -/
 
